@@ -1,4 +1,8 @@
+#[cfg(kani)]
+use crate::verif::vmap::{Entry, HashMap};
+#[cfg(not(kani))]
 use std::collections::HashMap;
+#[cfg(not(kani))]
 use std::collections::hash_map::Entry;
 use std::net::SocketAddr;
 use std::time::Duration;
